@@ -1378,6 +1378,8 @@ def check_c16(tier, seed):
                              f"(first: {json.dumps(metas[t - 1])[:400]}; clauses {sorted({'/'.join(c) for _, c in bad[t]})}): the specification misrepresents the code")
     if model["violated"] and not violations:
         raise MachineryError("TLC reports a C16 invariant violated on the model but the implementation conforms: the specification is wrong")
+    import checks_world
+    proof = checks_world.tlaps_proof("C16")
     n_raise = sum(1 for m in metas if m["out"][0] == "raise")
     n_rows = sum(1 for tr in traces for e in tr["events"] if e["e"] == "row")
     n_pd = sum(len(tr["pd"]) for tr in traces)
@@ -1385,7 +1387,7 @@ def check_c16(tier, seed):
            "samples": [metas[0], metas[-1]], "evaluations": n_rows + n_pd, "distinct_nontrivial": n_raise,
            "rule": "evaluations = recorded cell conversions of file operations (each with the file's bytes compared at that moment) plus data-frame operations; distinct_nontrivial = file operations that RAISED (atomicity clause exercised); the rest exercise the element-wise clause",
            "exhaustive": True, "models": [model], "fault_positions_reachable_in_model": reach, "traces_from_model": n_model,
-           "file_ops_raised": n_raise, "pd_ops": n_pd, "trace_validation": stv}
+           "file_ops_raised": n_raise, "pd_ops": n_pd, "trace_validation": stv, "tlaps_proof": proof}
     return {"lines": lines, "violations": violations, "coverage": cov, "wall": time.time() - t0, "assumptions": ASSUME + [
         "cells contain no control characters (the csv dialect is the module default)",
         "the recording subclass of Converter only observes: it calls the original method and logs (input, outcome, file bytes unchanged?) at top-level calls",
